@@ -31,6 +31,7 @@ type Case struct {
 	Chunk  int    `json:"chunk,omitempty"` // durable-streams chunk bytes
 	N      int    `json:"n"`
 	Start  int    `json:"start"`
+	Fill   string `json:"fill,omitempty"` // "" = appended directly to the store; "bus" = published through the replaying bus; "mixed" = first half published, rest appended by another writer afterwards
 	Fault  string `json:"fault"` // none cberr cancel-before cancel-at store-read store-row sql-next sql-query http-err http-500 badrow
 	K      int    `json:"k,omitempty"`
 }
@@ -89,15 +90,40 @@ func Run(c *Case) *vkit.Outcome {
 		return o
 	}
 
-	// fill the log directly through the store
+	// the bus (created before the log is filled: it may be the writer)
+	opts = append(opts, eventbus.WithStore(store))
+	bus := eventbus.New(opts...)
+	var liveCalls atomic.Int32
+	eventbus.Subscribe(bus, func(e Ev) { liveCalls.Add(1) })
+	eventbus.SubscribeContext(bus, func(_ context.Context, e Ev) { liveCalls.Add(1) }, eventbus.Async())
+
+	// fill the log: directly through the store, through the bus, or both
 	typeName := eventbus.EventType(Ev{})
 	offsets := make([]eventbus.Offset, 0, c.N)
 	for i := 1; i <= c.N; i++ {
-		inner := store
-		off, err := inner.Append(bg, &eventbus.Event{Type: typeName, Data: []byte(fmt.Sprintf(`{"i":%d}`, i))})
-		if err != nil {
-			o.Failf("", "filling the log: %v", err)
-			return o
+		viaBus := c.Fill == "bus" || (c.Fill == "mixed" && i <= c.N/2)
+		var off eventbus.Offset
+		if viaBus {
+			eventbus.Publish(bus, Ev{I: i})
+			bus.Wait()
+			// the offset of the event just published: the last one in the store
+			all, err := readAll(store)
+			if err != nil || len(all) != i {
+				o.Failf("", "filling the log through the bus: %d records after %d publishes (err %v)", len(all), i, err)
+				return o
+			}
+			off = all[len(all)-1].Offset
+			if c.Config == "durable" {
+				// synthetic read offsets are not resume points (C10 known finding): use the server's own
+				off = eventbus.Offset(fmt.Sprintf("%010d", i))
+			}
+		} else {
+			var err error
+			off, err = store.Append(bg, &eventbus.Event{Type: typeName, Data: []byte(fmt.Sprintf(`{"i":%d}`, i))})
+			if err != nil {
+				o.Failf("", "filling the log: %v", err)
+				return o
+			}
 		}
 		offsets = append(offsets, off)
 		if c.Fault == "badrow" && i == c.K && sqlPath != "" {
@@ -113,6 +139,7 @@ func Run(c *Case) *vkit.Outcome {
 			}
 		}
 	}
+	liveCalls.Store(0)
 	from := eventbus.OffsetOldest
 	if c.Start > 0 {
 		from = offsets[c.Start-1]
@@ -124,12 +151,6 @@ func Run(c *Case) *vkit.Outcome {
 			badAt = c.K - c.Start
 		}
 	}
-
-	opts = append(opts, eventbus.WithStore(store))
-	bus := eventbus.New(opts...)
-	var liveCalls atomic.Int32
-	eventbus.Subscribe(bus, func(e Ev) { liveCalls.Add(1) })
-	eventbus.SubscribeContext(bus, func(_ context.Context, e Ev) { liveCalls.Add(1) }, eventbus.Async())
 
 	// arm the fault
 	switch c.Fault {
@@ -318,6 +339,9 @@ func Run(c *Case) *vkit.Outcome {
 		o.Class("multi_page_with_fault_or_start_inside")
 	}
 	o.Class("config_" + c.Config)
+	if c.Fill != "" {
+		o.Class("fill_" + c.Fill)
+	}
 	o.Class("fault_" + c.Fault)
 	if faultFired.Load() {
 		o.Class("store_fault_fired")
